@@ -66,10 +66,13 @@ def conservation(ctx, prog, name):
             tok_of[id(info[2])] = nm
     worst = None
     n_src = 0
+    n_order = [0]
+    order_bad = [None]
     for p in paths:
         holders = {'self.rbuf': {'B0'}}
         sources = {'B0'}
         empty = set()
+        age = {'B0': 0}          # arrival order of byte tokens (T10o)
 
         def toks(v):
             if v is None:
@@ -116,6 +119,7 @@ def conservation(ctx, prog, name):
                     if not raised and tk:
                         holders[tk] = {tk}
                         sources.add(tk)
+                        age[tk] = o.seq
                         n_src += 1
                 elif isinstance(f, ast.Attribute) and txt(f.value) == 'self' and f.attr in ('recv_size', 'recv_until', 'recv'):
                     # inner receive: on success the result carries bytes (old buffer content may be inside it), the buffer
@@ -126,6 +130,8 @@ def conservation(ctx, prog, name):
                         holders['self.rbuf'] = set(holders['self.rbuf']) | {fresh}
                     elif tk:
                         left = 'Bl%d' % o.seq
+                        age[tk] = o.seq
+                        age[left] = o.seq + 0.5       # the callee's leftover arrived after what it returned
                         sources |= {tk, left}
                         holders[tk] = {tk} | set(holders['self.rbuf'])
                         holders['self.rbuf'] = {left}
@@ -140,6 +146,15 @@ def conservation(ctx, prog, name):
                 elif tk:
                     holders[tk] = set()
             elif o.kind == 'attr_store' and txt(v) == 'self.rbuf':
+                # T10o: a concatenation stored back into the buffer keeps arrival order (older bytes first)
+                if isinstance(o.info, ast.BinOp) and isinstance(o.info.op, ast.Add):
+                    lt, rt = toks(o.info.left), toks(o.info.right)
+                    la = [age.get(t) for t in lt]
+                    ra = [age.get(t) for t in rt]
+                    if lt and rt and None not in la and None not in ra:
+                        n_order[0] += 1
+                        if max(la) > min(ra) and order_bad[0] is None:
+                            order_bad[0] = (o, p, txt(w.expand(o.info)))
                 newv = toks(o.info)
                 for nm, info in w.tokens.items():
                     if info[0] == 'old' and info[2] is o:
@@ -182,6 +197,11 @@ def conservation(ctx, prog, name):
         ctx.ob('T10', construct, 'every byte token (buffer at entry, each successful socket/inner receive) is held by the return '
                'value or self.rbuf on all %d exits, normal and exceptional' % len(paths), True, loc=fn.loc,
                detail='%d receive events tracked' % n_src, nontrivial=True)
+    if n_order[0]:
+        ob = order_bad[0]
+        ctx.ob('T10o', construct, 'a concatenation stored back into the receive buffer keeps arrival order (bytes received earlier come '
+               'first)', ob is None, loc=loc(fn, ob[0].node) if ob else fn.loc, detail=ob[2] if ob else '%d stores checked' % n_order[0],
+               path=ob[1].describe() if ob else None)
     ctx.extra['paths_enumerated'] = ctx.extra.get('paths_enumerated', 0) + len(paths)
 
 
@@ -319,18 +339,60 @@ def run(ctx):
         "str(len(payload)).encode('ascii')", "str(len(payload)).encode()", "b'%d'%len(payload)", "b'%d'%(len(payload),)")
     sepc = const_of(parts[1]) if len(parts) == 4 else None
     termc = const_of(parts[3]) if len(parts) == 4 else None
-    until = [n for n in ast.walk(rn.node) if isinstance(n, ast.Call) and txt(n.func) == 'self.bsock.recv_until']
-    term = [n for n in ast.walk(rn.node) if isinstance(n, ast.Compare) and isinstance(n.left, ast.Call) and txt(n.left.func) == 'self.bsock.recv']
-    rs = [n for n in ast.walk(rn.node) if isinstance(n, ast.Call) and txt(n.func) == 'self.bsock.recv_size']
-    ints = [n for n in ast.walk(rn.node) if isinstance(n, ast.Call) and call_name(n) == 'int']
-    if not (sent_vals and until and term and rs):
-        raise AnalysisError('anchor vanished: netstring writer/reader call sites')
-    ok = shape_ok and isinstance(sepc, bytes) and isinstance(termc, bytes) and until[0].args and const_of(until[0].args[0]) == sepc and \
-        const_of(term[0].comparators[0]) == termc and isinstance(term[0].ops[0], ast.NotEq) and txt(term[0].left.args[0]) == str(len(termc)) and \
-        bool(ints) and until[0].lineno < rs[0].lineno < term[0].lineno
-    ctx.ob('T12.ns', wn.fq, 'writer frames decimal size + %r + payload + %r; reader reads until the first, parses an int, reads exactly that '
-           'many bytes and requires the second' % (sepc, termc), bool(ok), loc=wn.loc,
-           detail='writer parts %s' % [txt(p) for p in parts])
+    if not sent_vals:
+        raise AnalysisError('anchor vanished: netstring writer does not hand a frame to bsock.send')
+    # reader, on every normal return path of read_ns (private self helpers inlined): recv_until(SEP) -> int(that) ->
+    # recv_size(that int) -> recv(len(TERM)) tested equal to TERM
+    class NsModel(SockModel):
+        def inline(self, walker, op, callee, st):
+            rv = op.recv_val
+            return isinstance(rv, ast.Name) and rv.id == 'self' and callee.name.startswith('_') and not callee.name.startswith('__')
+    w3 = Walker(prog, NsModel(prog))
+    n_ret = 0
+    reader_ok = True
+    rdet = ''
+    for p in w3.paths(rn, recv=nci):
+        if p.kind != 'return':
+            continue
+        n_ret += 1
+        tok = {}
+        for nm, info in w3.tokens.items():
+            if info[0] == 'call' and len(info) > 2:
+                tok[id(info[2])] = nm
+        calls = [o for o in p.ops if o.kind == 'call']
+        until = [o for o in calls if txt(o.val.func) == 'self.bsock.recv_until']
+        ints = [o for o in calls if call_name(o.val) == 'int']
+        rs = [o for o in calls if txt(o.val.func) == 'self.bsock.recv_size']
+        rc = [o for o in calls if txt(o.val.func) == 'self.bsock.recv']
+        good = bool(until and ints and rs and rc)
+        if good:
+            u, i_, r_, c_ = until[0], ints[0], rs[0], rc[0]
+            good = bool(u.val.args) and const_of(u.val.args[0]) == sepc and u.seq < i_.seq < r_.seq < c_.seq
+            good = good and bool(i_.val.args) and txt(i_.val.args[0]) == tok.get(id(u))
+            good = good and bool(r_.val.args) and txt(r_.val.args[0]) == tok.get(id(i_))
+            good = good and bool(c_.val.args) and isinstance(termc, bytes) and const_of(c_.val.args[0]) == len(termc)
+            # the terminator test: a comparison of the recv(1) result with TERM that is "equal" on the return path
+            ct = tok.get(id(c_))
+            eq = False
+            for t, truth, o in tests_on(w3, p):
+                e2, neg = strip_not(o.val)
+                if isinstance(e2, ast.Compare) and len(e2.ops) == 1 and ct in (txt(e2.left), txt(e2.comparators[0])):
+                    other = e2.comparators[0] if txt(e2.left) == ct else e2.left
+                    if const_of(other) == termc:
+                        if isinstance(e2.ops[0], ast.NotEq) and (o.info != neg) is False:
+                            eq = True
+                        if isinstance(e2.ops[0], ast.Eq) and (o.info != neg) is True:
+                            eq = True
+            good = good and eq
+        if not good:
+            reader_ok = False
+            rdet = p.describe()[:600]
+    if n_ret == 0:
+        raise AnalysisError('anchor vanished: read_ns has no normal return path')
+    ok = shape_ok and isinstance(sepc, bytes) and isinstance(termc, bytes) and reader_ok
+    ctx.ob('T12.ns', wn.fq, 'writer frames decimal size + %r + payload + %r; on every normal path the reader reads until the first, parses '
+           'that as an int, reads exactly that many bytes and requires the second' % (sepc, termc), bool(ok), loc=wn.loc,
+           detail='writer parts %s %s' % ([txt(p) for p in parts], rdet))
     ctx.ob('T12.ns', wn.fq, 'the whole frame is handed to send', bool(sent_vals), loc=wn.loc)
     # the size-prefix limit follows the *effective* maxsize of the call
     w4 = Walker(prog, SockModel(prog))
